@@ -110,6 +110,21 @@ pub fn op_recheck(w: &mut World, op_ref: usize, ctx: Context) {
                 return;
             }
         }
+    } else if matches!(ctx, Context::FreshThread) {
+        // a real, newly spawned OS thread, joined at once: deterministic, and whatever the library keeps per
+        // thread starts from scratch in it
+        let (kind, hash, params, seed, prv, msg, via_obj) = (rec.kind, cfg.hash, cfg.params.clone(), cfg.seed.clone(), rec.prv_in.clone(), rec.msg.clone(), rec.via_obj);
+        let h = std::thread::Builder::new().stack_size(256 << 20).spawn(move || perform(kind, hash, &params, &seed, &prv, &msg, Context::Again, via_obj));
+        match h.map(|h| h.join()) {
+            Ok(Ok(g)) => {
+                w.rep.stats.probe("fresh-thread-recheck");
+                g
+            }
+            _ => {
+                w.rep.stats.probe("fresh-thread-unavailable");
+                return;
+            }
+        }
     } else {
         perform(rec.kind, cfg.hash, &cfg.params, &cfg.seed, &rec.prv_in, &rec.msg, ctx, rec.via_obj)
     };
